@@ -397,13 +397,15 @@ impl ScopeReturnStatus {
     }
 
     pub fn eq_for_signature_checking(&self, rhs: &Self) -> Result<bool> {
-        if self == rhs {
-            return Ok(true);
-        }
-
         let (Some(lhs), Some(rhs)) = (self.get_type(), rhs.get_type()) else {
+            if self == rhs {
+                return Ok(true);
+            }
             bail!("not applicable")
         };
+
+        // equal statuses have equal types, which `eq_complex` accepts at once: comparing the statuses first would compare the types twice at
+        // every level of a nested function type
 
         use crate::ast::TypecheckFlags;
         Ok(lhs.eq_complex(rhs.as_ref(), &TypecheckFlags::<&ClassType>::classless()))
